@@ -40,7 +40,7 @@ func depsFor(prop string) []string {
 	case "C02":
 		return []string{"C10", "C16", "C18", "C19"}
 	case "C03":
-		return []string{"C09", "C10", "C16", "C18", "C19"}
+		return []string{"C01", "C02", "C05", "C09", "C10", "C16", "C17", "C18", "C19"}
 	case "C06":
 		return []string{"C09", "C10", "C16", "C17", "C18", "C19"}
 	case "C11":
